@@ -375,14 +375,11 @@ impl Space for Forms {
         if planted_base {
             // a planted strictly feasible primal-dual pair is well-posed by construction:
             // every equivalent form must reach the same verdict class
-            ensure!(
-                class_of(r1.status) == class_of(r0.status),
-                "verdict-class-differs-between-equivalent-forms",
-                "base {:?} but {:?} gives {:?}",
-                r0.status,
-                tfs,
-                r1.status
-            );
+            // (key suffix: an inconclusive variant reached through a scaled objective is the open known finding)
+            let inconclusive = class_of(r1.status) == "other";
+            let scaled = tfs.iter().any(|t| format!("{:?}", t).starts_with("ScaleObjective"));
+            let key = if inconclusive && scaled { "verdict-class-differs-between-equivalent-forms:inconclusive-under-objective-scaling" } else { "verdict-class-differs-between-equivalent-forms" };
+            ensure!(class_of(r1.status) == class_of(r0.status), key, "base {:?} but {:?} gives {:?}", r0.status, tfs, r1.status);
         } else {
             // a deviated instance may be ill-posed (weakly feasible/infeasible): an inconclusive variant carries
             // no expectation, but two definite verdicts must not contradict each other
@@ -392,6 +389,22 @@ impl Space for Forms {
             }
             let (c0, c1) = (class_of(r0.status), class_of(r1.status));
             let both_infeasible = c0 != "solved" && c1 != "solved";
+            if c0 != c1 && !both_infeasible {
+                // "solved" against "infeasible". If each verdict is certified on its own data by the C01 / C02
+                // oracles (an approximate optimum and an approximate certificate both exist), the instance is
+                // ill-posed -- weakly (in)feasible to tolerance -- and outside this property; a verdict that is
+                // not certified is what C01 / C02 report
+                let certified = |prob: &Prob, sset: &SettingsSpec| -> bool {
+                    match run_solver(prob, sset, true) {
+                        Ok(r) => judge_c01(prob, sset, &r, 1e20).is_ok() && judge_c02(prob, sset, &r, 1e20).is_ok(),
+                        Err(_) => false,
+                    }
+                };
+                if certified(&base, &ss) && certified(&v.p, &v.ss) {
+                    ctx.outcome("ill-posed-instance:both-verdicts-certified(skipped)");
+                    return Ok(());
+                }
+            }
             ensure!(
                 c0 == c1 || both_infeasible,
                 "contradictory-verdicts-between-equivalent-forms",
